@@ -401,7 +401,7 @@ theorem zipLift_inj : ∀ (ns ns' : List Z3) (os : List HOp), ns.length = os.len
     simp only [zipLift, List.zipWith_cons_cons, List.cons.injEq] at he
     rw [lift_inj he.1, zipLift_inj ns ns' os (by simpa using h) (by simpa using h') he.2]
 
-theorem zipLift_os_inj {prim : List HOp} (hnd : (prim.map (·.rot)).Nodup) : ∀ (ns ns' : List Z3) (os os' : List HOp),
+theorem zipLift_os_inj {prim : List HOp} (hnd : (prim.map opKey).Nodup) : ∀ (ns ns' : List Z3) (os os' : List HOp),
     ns.length = os.length → ns'.length = os'.length → (∀ o ∈ os, o ∈ prim) → (∀ o ∈ os', o ∈ prim) →
     zipLift ns os = zipLift ns' os' → os = os'
   | [], [], [], [], _, _, _, _, _ => rfl
@@ -414,7 +414,9 @@ theorem zipLift_os_inj {prim : List HOp} (hnd : (prim.map (·.rot)).Nodup) : ∀
   | n :: ns, n' :: ns', o :: os, o' :: os', h, h', hp, hp', he => by
     simp only [zipLift, List.zipWith_cons_cons, List.cons.injEq] at he
     have hr : (lift n o).rot = (lift n' o').rot := congrArg HOp.rot he.1
-    have ho : o = o' := List.inj_on_of_nodup_map hnd (hp o List.mem_cons_self) (hp' o' List.mem_cons_self) hr
+    have htr : (lift n o).tr = (lift n' o').tr := congrArg HOp.tr he.1
+    have ho : o = o' := List.inj_on_of_nodup_map hnd (hp o List.mem_cons_self) (hp' o' List.mem_cons_self)
+      (Prod.ext hr htr : opKey o = opKey o')
     rw [ho, zipLift_os_inj hnd ns ns' os os' (by simpa using h) (by simpa using h')
       (fun x hx => hp x (List.mem_cons_of_mem _ hx)) (fun x hx => hp' x (List.mem_cons_of_mem _ hx)) he.2]
 
@@ -430,7 +432,7 @@ theorem length_of_mem_tuples_reps {prim : List HOp} {types : List SlotType} {os 
     · exact (mem_reps.1 ha).1
     · exact ih o ho
 
-theorem nested_nodup {m : Nat} (hv : (vecsMod m).Nodup) {prim : List HOp} (hnd : (prim.map (·.rot)).Nodup)
+theorem nested_nodup {m : Nat} (hv : (vecsMod m).Nodup) {prim : List HOp} (hnd : (prim.map opKey).Nodup)
     (types : List SlotType) : (nested m prim types).Nodup := by
   have hp : prim.Nodup := List.Nodup.of_map _ hnd
   unfold nested
@@ -470,7 +472,7 @@ theorem count_eq_nested (s : Spec) (prim : List HOp) :
   simp only [Function.comp_apply, List.countP_map, Function.comp_def]
 
 /-- **The evaluation strategy is correct.** -/
-theorem count_eq_countSpec (s : Spec) (hv : (vecsMod s.m).Nodup) {prim : List HOp} (hnd : (prim.map (·.rot)).Nodup) :
+theorem count_eq_countSpec (s : Spec) (hv : (vecsMod s.m).Nodup) {prim : List HOp} (hnd : (prim.map opKey).Nodup) :
     count s prim = countSpec s prim := by
   rw [count_eq_nested, countSpec]
   refine List.Perm.countP_eq _ ?_
@@ -484,13 +486,13 @@ theorem count_eq_countSpec (s : Spec) (hv : (vecsMod s.m).Nodup) {prim : List HO
 /-- **Invariance.**  Affinely conjugate lists of coset representatives (pairwise different linear
 parts) have the same number of solutions of every system. -/
 theorem count_eq_of_affConj (s : Spec) (hv : (vecsMod s.m).Nodup) {src tgt : List HOp}
-    (hs : (src.map (·.rot)).Nodup) (ht : (tgt.map (·.rot)).Nodup) (h : AffConj src tgt) :
+    (hs : (src.map opKey).Nodup) (ht : (tgt.map opKey).Nodup) (h : AffConj src tgt) :
     count s src = count s tgt := by
   rw [count_eq_countSpec s hv hs, count_eq_countSpec s hv ht]
   exact countSpec_eq_of_affConj s hv hs ht h
 
 theorem invVecT_eq_of_affConj (specs : List Spec) (hv : ∀ s ∈ specs, (vecsMod s.m).Nodup) {src tgt : List HOp}
-    (hs : (src.map (·.rot)).Nodup) (ht : (tgt.map (·.rot)).Nodup) (h : AffConj src tgt) :
+    (hs : (src.map opKey).Nodup) (ht : (tgt.map opKey).Nodup) (h : AffConj src tgt) :
     invVecT specs src = invVecT specs tgt := by
   unfold invVecT
   exact List.map_congr_left fun s hsm => count_eq_of_affConj s (hv s hsm) hs ht h
@@ -533,16 +535,25 @@ theorem satRots_conjugate (s : Spec) {src tgt : List HOp} (h : AffConj src tgt) 
       obtain ⟨o, ho, hm⟩ := h2 o0 ho0
       exact ⟨o, ho, CC.symm F hd (cc_of_affMaps hd hpos h12 hm)⟩
 
-theorem satRots_nodup (s : Spec) {prim : List HOp} (hnd : (prim.map (·.rot)).Nodup) : (satRots s prim).Nodup := by
+theorem satRots_nodup (s : Spec) {prim : List HOp} (hnd : (prim.map opKey).Nodup) : (satRots s prim).Nodup := by
   unfold satRots
   split
-  · refine List.Nodup.sublist (List.Sublist.map _ ?_) hnd
-    exact (List.filter_sublist).trans List.filter_sublist
+  · rename_i τ _
+    have hp : prim.Nodup := List.Nodup.of_map _ hnd
+    refine ((hp.filter _).filter _).map_on ?_
+    intro o ho o' ho' hr
+    have h1 := mem_reps.1 (List.mem_of_mem_filter ho)
+    have h2 := mem_reps.1 (List.mem_of_mem_filter ho')
+    have t1 : o.tr = τ.2.2 := by
+      have := h1.2; simp only [typeIs, Bool.and_eq_true, beq_iff_eq] at this; exact this.2
+    have t2 : o'.tr = τ.2.2 := by
+      have := h2.2; simp only [typeIs, Bool.and_eq_true, beq_iff_eq] at this; exact this.2
+    exact List.inj_on_of_nodup_map hnd h1.1 h2.1 (Prod.ext hr (t1.trans t2.symm) : opKey o = opKey o')
   · exact List.nodup_nil
 
 /-- The GL₃(ℤ)-invariants of the subset are invariants of the affine conjugacy class. -/
 theorem rotInv_eq_of_affConj (types : List (Int × Int × Nat)) (s : Spec) {src tgt : List HOp}
-    (hs : (src.map (·.rot)).Nodup) (ht : (tgt.map (·.rot)).Nodup) (h : AffConj src tgt) :
+    (hs : (src.map opKey).Nodup) (ht : (tgt.map opKey).Nodup) (h : AffConj src tgt) :
     invVec types (satRots s src) = invVec types (satRots s tgt) :=
   invVec_eq_of_conjugate types (satRots_nodup s hs) (satRots_nodup s ht) (satRots_conjugate s h)
 
